@@ -611,6 +611,19 @@ Theorem C14_stripped_pkg_spec_clean_partial : forall c ss0 q q',
   good_lines (echo_lines q').
 Proof. exact stripped_pkg_full. Qed.
 
+(* the per-entry conditions of C14_tokens_spec_any_newline, for a package embedded WITHOUT its game loop from any
+   byte file of the dialect: the echoed code is in the dialect, its lines are good, its tokens are the file's tokens
+   outside the cut ranges - and, under the two conditions, the file's tokens minus its game-loop definitions *)
+Theorem C14_pkg_conditions_stripped : forall c ss0 q q',
+  Forall byte c -> spec_lex c = Some ss0 -> from_lines (file_lines c) = Ok q -> strip_lua q = Ok q' ->
+  lexes (Z * list Z * Z * Z * Z) sig_views (concat (echo_lines q')) /\
+  good_lines (echo_lines q') /\
+  (exists ranges, strip_ranges (rev' (root_stats (l_root q))) (l_toks q) = Ok ranges /\
+     toks (Z * list Z * Z * Z * Z) sig_views (concat (echo_lines q')) = map tview (nontriv (drops (map unpos ss0) ranges))) /\
+  (fully_parsed q = true -> shortif_clean (l_root q) = true ->
+   toks (Z * list Z * Z * Z * Z) sig_views (concat (echo_lines q')) = map tview (RequireSpec.spec_strip (nontriv (map unpos ss0)))).
+Proof. exact stripped_pkg_conditions. Qed.
+
 Theorem C14_fully_parsed_of_derivation : forall ls q g,
   from_lines ls = Ok q ->
   derives (map token_of_tok (l_toks q)) g = true -> line_scoped (map token_of_tok (l_toks q)) g = true ->
@@ -637,6 +650,7 @@ Print Assumptions C14_strip_ranges_ok.
 Print Assumptions C14_stripped_pkg.
 Print Assumptions C14_strip_ranges_spec.
 Print Assumptions C14_stripped_pkg_spec_clean_partial.
+Print Assumptions C14_pkg_conditions_stripped.
 Print Assumptions C14_fully_parsed_of_derivation.
 Print Assumptions C14_spec_strip_shortif_refuted.
 
